@@ -114,7 +114,12 @@ impl IncomingStream {
     /// # Ok(())
     /// # }
     /// ```
+    #[cfg_attr(pavex_verif, allow(unreachable_code))]
     pub async fn accept(&self) -> std::io::Result<(TcpStream, SocketAddr)> {
+        #[cfg(pavex_verif)]
+        return self.listener.accept().await.inspect(|(_, peer)| {
+            super::verif::event("accepted", peer.port(), 0u64);
+        });
         self.listener.accept().await
     }
 }
@@ -138,5 +143,13 @@ impl TryFrom<std::net::TcpListener> for IncomingStream {
 impl From<TcpListener> for IncomingStream {
     fn from(v: TcpListener) -> Self {
         Self { listener: v }
+    }
+}
+
+#[cfg(pavex_verif)]
+impl Drop for IncomingStream {
+    fn drop(&mut self) {
+        let port = self.listener.local_addr().map(|a| a.port()).unwrap_or(0);
+        super::verif::event("listener_closed", port, 0u64);
     }
 }
